@@ -241,7 +241,15 @@ def oracle(err, req, evs, status):
     def handler_deps(x):
         return dep.get("x%d" % desig[x][1], set()) if desig[x][0] == "x" else set()
     nested = [x for x in failed if any(y != x and y[0] == "c" and int(y[1:]) in handler_deps(x) for y in failed)]
-    swallowable = [x for x in failed if x[0] == "c" and int(x[1:]) in only_for_errors]
+    transient = {c["i"] for c in err["ctors"] if c["life"] == "transient"}
+    for_errors = set()
+    for k2, v in dep.items():
+        if k2[0] in "xo":
+            for_errors |= v
+    # a transient constructor has one node per use: the instance built for an error handler can be the one
+    # that is built ahead of its arm, whatever the happy path needs
+    swallowable = [x for x in failed if x[0] == "c" and (int(x[1:]) in only_for_errors or
+                                                          (int(x[1:]) in transient and int(x[1:]) in for_errors))]
     if nested or swallowable:
         # failures on the error path itself: a value only an error handler / observer needs fails, or the input
         # of the handler of a failed component fails too. The strict reading below does not apply; check what
@@ -278,6 +286,8 @@ def oracle(err, req, evs, status):
             return "SWALLOWED-SPECULATIVE-FAILURE: among %s, %d failure(s) of values built ahead of the error arm that needs them (%s) were never inspected: no error handler and no observer ran for them" % (failed, unexplained, swallowable)
         if not obs and swallowable and status in (200, 202):
             return "SWALLOWED-SPECULATIVE-FAILURE: %s returned Err while being built ahead of the error arm that needs it; the arm was not entered and the request was served normally" % swallowable
+        if not obs and swallowable and len(ran) + sum(1 for x in failed if desig[x][0] != "x") < len(failed) - len(nested):
+            return "SWALLOWED-SPECULATIVE-FAILURE: among %s, fewer error handlers ran (%s) than components failed: a value built ahead of the error arm that needs it (%s) failed and was never inspected" % (failed, ran, swallowable)
         return None
     for n, i in enumerate(fails):
         x = evs[i].split()[1]
@@ -295,6 +305,11 @@ def oracle(err, req, evs, status):
         else:
             if any(e.split()[1] == x and e.split()[0] in ("handler", "pre", "post", "wrap-start") for e in rest):
                 return "`%s` logged after failing" % x
+            # a middleware / handler that fails stops what it wraps or precedes: only post-processors and the
+            # tails of enclosing wrapping middlewares may still run
+            inner = [e for e in rest if e.split()[0] in ("handler", "pre", "wrap-start")]
+            if inner:
+                return "`%s` ran after `fail %s`: the pipeline did not stop" % (inner[0], x)
         # (b) the designated handler, exactly once
         d = designated(err, x[0], int(x[1:]))
         ehs = [e for e in seg if e.startswith("eh ")]
@@ -349,8 +364,9 @@ def run(R):
         if o.get("timed_out"):
             broken_tie.append("%s: pavexc did not terminate within the time limit (%.0fs; machine load?)" % (name, o["secs"]))
             continue
-        if o["rc"] != 0 and not o["panicked"] and "Failed to invoke `cargo metadata`" in o["out"]:
-            env_rejects.append(name)  # pavexc could not even start (cargo metadata failed: machine load); not a verdict
+        if o["rc"] != 0 and not o["panicked"] and ("Failed to invoke `cargo metadata`" in o["out"] or
+                                                     "I failed to compute the JSON documentation" in o["out"]):
+            env_rejects.append(name)  # pavexc could not even start (cargo metadata / rustdoc failed: machine load); not a verdict
             continue
         if o["rc"] != 0 or o["panicked"] or not o.get("cargo_check", {}).get("ok"):
             msg = [l.strip() for l in o["out"].split("\n") if "panicked" in l or "did not" in l or "ERROR" in l][:3]
